@@ -22,7 +22,7 @@ func init() {
 		LevelText: "Decoder totality decided structurally for all paths: every index/slice/fixed-width read on bytes that derive from a NATS message is proven in bounds from the length guards that dominate it; no explicit panic in the envelope decoders; each envelope type has exactly one writer and one reader that agree on constant and message type; the checksum branch cannot return success without CRC equality; raw payloads are stored verbatim. Protobuf's own decoder and semantic validity of decoded values are not decided. No panic that a sender can bring about remains in a NATS callback or in the functions that marshal an ack; the malformed-message-set error reaches the handler's identity test unwrapped.",
 		LevelNote: "Trusted: go/ssa, the taint closure (does not follow heap fields), github.com/golang/protobuf Unmarshal being total, the prover's arithmetic (difference constraints over dominating branch conditions; integer overflow not modelled).",
 		DesignRef: "DESIGN.md §4 C14",
-		Explanation: "Round 8: R14.13 every test of a length against envelopeMinHeaderLen accepts the equal case (header-only envelope); R14.4 also: a message object filled anywhere without being allocated on the spot has every field assigned. R14.1 also: a table indexed by a number read out of untrusted bytes lies behind index < len(table); R14.5 also: every batched message was validated; a proposed CREATE_STREAM is startable (F102). R14.1 bounds on untrusted bytes (taint closure from nats.Msg.Data, all module functions reached), R14.2 marshal/unmarshal table agreement per msgType and header layout agreement, R14.3 CRC guard, R14.4 raw passthrough / envelope copy in natsToProtoMessage, R14.5 optional sub-messages of propagated requests are nil-checked before dereference. R14.5 also covers messages nested in an optional sub-message; R14.6 the malformed-message-set sentinel arrives unwrapped at handleReplicationResponse's identity test; R14.7 every panic in a NATS callback or ack-marshalling function is one of six listed ones that a sender cannot cause. R14.9 the message built for a raw (non-envelope) payload waives the expected offset (Offset = -1), so a stream with optimistic concurrency control stores it like any other; R14.4's field copies are demanded on the envelope branch and only constants elsewhere. " +
+		Explanation: "R01.11 (round 10): valid() accepts the null marker -1 for every size-prefixed field, as Encode writes it. Round 8: R14.13 every test of a length against envelopeMinHeaderLen accepts the equal case (header-only envelope); R14.4 also: a message object filled anywhere without being allocated on the spot has every field assigned. R14.1 also: a table indexed by a number read out of untrusted bytes lies behind index < len(table); R14.5 also: every batched message was validated; a proposed CREATE_STREAM is startable (F102). R14.1 bounds on untrusted bytes (taint closure from nats.Msg.Data, all module functions reached), R14.2 marshal/unmarshal table agreement per msgType and header layout agreement, R14.3 CRC guard, R14.4 raw passthrough / envelope copy in natsToProtoMessage, R14.5 optional sub-messages of propagated requests are nil-checked before dereference. R14.5 also covers messages nested in an optional sub-message; R14.6 the malformed-message-set sentinel arrives unwrapped at handleReplicationResponse's identity test; R14.7 every panic in a NATS callback or ack-marshalling function is one of six listed ones that a sender cannot cause. R14.9 the message built for a raw (non-envelope) payload waives the expected offset (Offset = -1), so a stream with optimistic concurrency control stores it like any other; R14.4's field copies are demanded on the envelope branch and only constants elsewhere. " +
 			"R14.5 also: the CREATE_STREAM precondition keys on the stream's own name, partitions naming another stream and repeated partition ids are refused before anything is proposed (F69); R14.10 every publish on the acks connection is behind a whitespace test of its subject (F70); R14.11 stored subjects reach proto3 string fields through ToValidUTF8 (F71); R14.12 entriesForMessageSet admits an entry only for a message that passed valid(), and valid() itself is in the bounds prover's closure (F75). NOT decided: protobuf decoding itself, semantic validity of decoded values, resource exhaustion, round-trip equality as a value property.",
 	})
 }
